@@ -83,7 +83,8 @@ def is_atomic_vector(value: Any) -> bool:
     not represent any vector operation, such as `VectorCross`.
     """
 
-    return isinstance(value, (VectorSymbol, AppliedVectorFunction))
+    # NOTE: an unevaluated derivative of a vector function is irreducible as well
+    return isinstance(value, (VectorSymbol, AppliedVectorFunction, VectorDerivative))
 
 
 @cacheit
@@ -712,8 +713,9 @@ class VectorMixedProduct(Expr):  # type: ignore[misc]
         if is_vector_expr(symbol):
             return SymDerivative(self, symbol, evaluate=False)
 
+        # NOTE: the evaluated dot-of-cross is this mixed product again
         a, b, c = self.args
-        return VectorDot(a, VectorCross(b, c)).diff(symbol)
+        return VectorDot(a, VectorCross(b, c, evaluate=False), evaluate=False).diff(symbol)
 
 
 class AppliedVectorFunction(sym_fn.Application, VectorExpr):  # type: ignore[misc]
@@ -892,7 +894,7 @@ class VectorDerivative(SymDerivative, VectorExpr):  # type: ignore[misc]
         if is_vector_expr(symbol):
             return SymDerivative(self, symbol, evaluate=False)
 
-        return super().diff(symbol)
+        return super()._eval_derivative(symbol)
 
 
 def vector_diff(expr: Expr, *variables: Expr, **kwargs: Any) -> Expr:
